@@ -21,8 +21,8 @@ from ..native import Pool
 from ..tlc import MachineryError, run_tlc, workdir
 
 INVARIANTS = ["KernelMatches", "OwnMatches", "LockMutex", "CacheBound", "CacheSound", "Sequential", "NoSharedStruct"]
-PARAMS = {"quick": dict(schedules=14, free_rounds=5, nthreads=16, three=False),
-          "thorough": dict(schedules=400, free_rounds=40, nthreads=16, three=True)}
+PARAMS = {"quick": dict(schedules=14, free_rounds=5, nthreads=16, three=False, hammer_rounds=2, hammer_calls=150),
+          "thorough": dict(schedules=400, free_rounds=40, nthreads=16, three=True, hammer_rounds=8, hammer_calls=3000)}
 
 
 def make_requests(rng):
@@ -136,6 +136,11 @@ def run(tier, seed):
                 pick = [rng.choice(["r1", "r2", "r3", "r7", "r8", "r8"]) for _ in range(nth - 3)] + [rng.choice(["r4", "r5", "r6"]) for _ in range(3)]
             threads = [(i + 1, pick[i]) for i in range(nth)]
             rounds.append({"rid": len(rounds), "scenario": "free", "threads": threads, "warm": [], "schedule": None})
+        # hammer rounds: 16 threads x many calls of the same cached kernels on arguments of different sizes
+        for hr in range(P.get("hammer_rounds", 2)):
+            threads = [(i + 1, ["r1", "r8", "r2", "r8"][i % 4] if hr % 2 == 0 else ["r4", "r9", "r6", "r9"][i % 4]) for i in range(P["nthreads"])]
+            rounds.append({"rid": len(rounds), "scenario": "hammer", "threads": threads, "warm": [threads[0][1]], "schedule": None,
+                           "hammer": P.get("hammer_calls", 300)})
         # run all rounds natively (several sacrificial workers, each with its own interpreter)
         chunks = [rounds[i::14] for i in range(14)]
         tasks = [{"id": str(i), "op": "concurrency", "requests": reqs, "rounds": ch, "timeout": 900} for i, ch in enumerate(chunks) if ch]
@@ -172,7 +177,7 @@ def run(tier, seed):
                                 "case": {**rd, "events": o["events"][:200]}})
             # code -> spec: every recorded cold round (scheduled or free) is validated as a trace; kernels compiled
             # before a warm round started have no jit event, so warm rounds are judged by their results only
-            if o["errors"] or rd["warm"]:
+            if o["errors"] or rd["warm"] or rd.get("hammer"):
                 continue
             mod, cfgc = mc_module(f"{tag}_t{rd['rid']}", [tuple(x) for x in rd["threads"]], reqs, keys, [], True)
             created.append(mod)
